@@ -10,6 +10,7 @@ import PygProofs.Lemmas.ZipLemmas
 import PygProofs.Lemmas.WaiterLemmas
 import PygModel.LiftX
 import PygModel.Txt
+import PygProofs.Lemmas.TxtLemmas
 import PygProofs.Lemmas.LiftXLemmas
 import PygProofs.Lemmas.LiftXRecLemmas
 import PygModel.WaiterF
@@ -1750,5 +1751,40 @@ theorem liftx_refines_recorder (T : LoopTypes) (hl : T.list = true) (ht : T.tupl
     (wrappedX T recorderX v.emb (Val.embList args) (Val.embKVs kw)).map XVal.unobj =
       (wrapped recorder v args kw).map Val.emb :=
   liftx_refines_upto XVal.unobj unobj_through T recorderX recorder hl ht hd recorderX_extends v args kw
+
+
+/-! ### `split` as a closed model (one-character separator) -/
+
+/-- **`text.split(sep)`, characterised**: the words are exactly the way to write the text as separator-free words joined by the
+separator (`sep.join(text.split(sep)) == text`, no word holds the separator - and there is no other such list) -/
+theorem split_iff (sep : Char) (cs w : List Char) (ws : List (List Char)) :
+    splitChars sep cs = w :: ws ↔ sep ∉ w ∧ (∀ x ∈ ws, sep ∉ x) ∧ joinChars sep w ws = cs := by
+  constructor
+  · intro h
+    simp only [splitChars, List.cons.injEq] at h
+    obtain ⟨rfl, rfl⟩ := h
+    exact ⟨(splitAux_no_sep sep cs).1, (splitAux_no_sep sep cs).2, splitAux_join sep cs⟩
+  · rintro ⟨h1, h2, h3⟩
+    simp [splitChars, splitAux_unique sep cs w ws h1 h2 h3]
+
+/-- one word more than there are separators in the text -/
+theorem split_count (sep : Char) (cs : List Char) : (splitChars sep cs).length = cs.count sep + 1 := by
+  simp [splitChars, splitAux_length]
+
+example : splitChars ',' "a,,b".toList = ["a".toList, [], "b".toList] ∧ splitChars ',' [] = [[]] := by decide
+
+/-- **`pyg_base.split` on nested text (closed model: lifting + leaf)**: the text leaf at `p` is replaced by the list of its words,
+without the empty ones when `dedup` -/
+theorem lib_split_spec (v r : Val) (c : Char) (dedup : Bool) (p : Path) (t : String)
+    (h : libSplit v (String.singleton c) dedup = .ok r) (hp : v.at p = some (.cell (.str t))) :
+    r.at p = some (.list ((if dedup then (splitChars c t.toList).filter (fun w => !w.isEmpty) else splitChars c t.toList).map
+      fun w => .cell (.str (String.ofList w)))) := by
+  obtain ⟨y, hy, hr⟩ := two_keyword_companions splitLeaf "sep" "dedup" (by decide) (by decide) v _ _ r p (.str t) h hp
+  rw [hr]
+  simp only [select_scalar] at hy
+  have hs : (String.singleton c).toList = [c] := String.toList_singleton c
+  simp only [splitLeaf, hs] at hy
+  cases hy
+  rfl
 
 end Pyg.Props.C19
